@@ -212,7 +212,7 @@ def run_c16(tier):
                                         "a loop bounded by such a dimension cannot complete a path and is reported as unwinding violation"])
 
 
-def validate_asan(results, limit):
+def validate_asan(results, limit, rep=None):
     """Serval-style validation of the executor against the implementation: witnesses of verified
     paths run through the concrete IR machine and through the emitted C compiled with
     gcc -fsanitize=address,undefined (evaluate and assemble;compute); outputs must agree, the
@@ -241,6 +241,13 @@ def validate_asan(results, limit):
                 ok = False
                 break
             asan = replay.asan_run(comp, fns, w)
+            if asan["status"] in ("sanitizer", "crash", "timeout") and rep is not None:
+                # a concrete run of the real emitted C under ASan/UBSan: a violation in its own right
+                rep.violation({"name": req.key(), "kind": "sanitizer-on-witness", "backend": "c", "request": req.key()},
+                              {"property": rep.pid, "part": "sanitizer build of the emitted C on a witness", "request": req.asdict(),
+                               "program": fns, "inputs": w, "status": asan["status"], "stderr": asan.get("stderr", "")[-1500:]})
+                ok = False
+                break
             if asan["status"] != "ok":
                 problems.append(f"sanitizer build failed on a witness of a verified path: {req.key()} {fns} {asan['status']} {asan.get('stderr', '')[-300:]}")
                 ok = False
@@ -250,6 +257,13 @@ def validate_asan(results, limit):
                 ok = False
                 break
             asl = replay.asan_run_llvm(comp, fns, w)
+            if asl["status"] in ("sanitizer", "crash", "timeout") and rep is not None:
+                rep.violation({"name": req.key(), "kind": "sanitizer-on-witness", "backend": "llvm", "request": req.key()},
+                              {"property": rep.pid, "part": "clang -fsanitize=address build of the emitted LLVM module on a witness",
+                               "request": req.asdict(), "program": fns, "inputs": w, "status": asl["status"],
+                               "stderr": asl.get("stderr", "")[-1500:]})
+                ok = False
+                break
             if asl["status"] != "ok" or not judge.same_raw(ir["output"], asl["output"]):
                 problems.append(f"IR machine and clang-compiled LLVM module disagree on a witness: {req.key()} {fns} {asl.get('status')} {asl.get('stderr', '')[-200:]}")
                 ok = False
